@@ -34,11 +34,12 @@ Nothing of pyyeti is imported or executed."""
 from __future__ import annotations
 
 import ast
+import copy
 
 from . import e2_formula as F
 from .core import Unsupported
 from .e1_srcmodel import dotted
-from .e2_eval import AutoEvaluator, DictValue, Unknown, is_unknown, need
+from .e2_eval import AutoEvaluator, DictValue, Unknown, is_unknown, need, _vec_binop
 from .sem import module_consts, module_funcs, unfn
 
 NONE, TRUE, FALSE = F.sym("None"), F.sym("True"), F.sym("False")
@@ -266,6 +267,53 @@ def _is_np(d):
     return d is not None and d.startswith(("np.", "numpy."))
 
 
+# element-wise numpy functions that are spellings of an operator / of a function the algebra knows: np.subtract(a, b) is a - b, np.negative(a) is -a
+UFUNC2 = {"add": ast.Add, "subtract": ast.Sub, "multiply": ast.Mult, "divide": ast.Div, "true_divide": ast.Div, "power": ast.Pow, "float_power": ast.Pow}
+UFUNC1 = {"negative": lambda x: -x, "positive": lambda x: x, "square": lambda x: x * x, "reciprocal": lambda x: 1 / x,
+          "sqrt": F.sqrt, "exp": F.exp, "sin": F.sin, "cos": F.cos, "log": F.log,
+          "abs": lambda x: F.fn("abs", x), "absolute": lambda x: F.fn("abs", x), "fabs": lambda x: F.fn("abs", x)}
+# keywords of a ufunc call that do not change the element-wise value (`out=` is an effect, handled by the evaluator; `where=` does change it)
+UFUNC_KW = {"dtype", "casting", "order", "subok"}
+
+
+def arith(op, a, b):
+    """a <op> b on values (formulas or vectors of formulas); Unknown when it cannot be formed"""
+    if is_unknown(a) or is_unknown(b):
+        return a if is_unknown(a) else b
+    if isinstance(a, DictValue) or isinstance(b, DictValue):
+        return Unknown("arithmetic on a table")
+    if isinstance(a, tuple) or isinstance(b, tuple):
+        return _vec_binop(op, a, b)
+    try:
+        a, b = need(a), need(b)
+        if isinstance(op, ast.Add):
+            return a + b
+        if isinstance(op, ast.Sub):
+            return a - b
+        if isinstance(op, (ast.Mult, ast.MatMult)):
+            return a * b
+        if isinstance(op, ast.Div):
+            return Unknown("division by zero") if b.is_zero() else a / b
+        if isinstance(op, ast.Pow):
+            return a ** b
+    except Unsupported as e:
+        return Unknown(str(e))
+    except Exception as e:  # noqa  (a power the algebra cannot form)
+        return Unknown(f"power: {e}")
+    return Unknown(f"operator {type(op).__name__}")
+
+
+def unary(f, a):
+    if is_unknown(a) or isinstance(a, DictValue):
+        return a if is_unknown(a) else Unknown("function of a table")
+    if isinstance(a, tuple):
+        return tuple(unary(f, x) for x in a)
+    try:
+        return f(need(a))
+    except Unsupported as e:
+        return Unknown(str(e))
+
+
 def array_call(node, ev):
     """numpy spellings that do not change what is computed (see the module docstring); NotImplemented for everything else"""
     d = dotted(node.func) or ""
@@ -292,9 +340,14 @@ def array_call(node, ev):
         if isinstance(a, tuple):
             return F.const(len(a))
         return rows_of(a)
-    if d in ("np.square", "numpy.square") and len(node.args) == 1 and not kw:
-        a = ev.ev(node.args[0])
-        return NotImplemented if is_unknown(a) or isinstance(a, tuple) else need(a) * need(a)
+    if _is_np(d) and d.count(".") == 1 and not (set(kw) - UFUNC_KW) and not any(isinstance(a, ast.Starred) for a in node.args):
+        last = d.split(".")[1]
+        if last in UFUNC2 and len(node.args) == 2:
+            r = arith(UFUNC2[last](), ev.ev(node.args[0]), ev.ev(node.args[1]))
+            return NotImplemented if is_unknown(r) else r
+        if last in UFUNC1 and len(node.args) == 1 and not (last in ("sqrt", "exp", "sin", "cos", "log", "abs", "absolute") and not kw):
+            r = unary(UFUNC1[last], ev.ev(node.args[0]))
+            return NotImplemented if is_unknown(r) else r
     if d in ("np.matmul", "np.dot", "np.multiply", "numpy.matmul", "numpy.dot", "numpy.multiply") and len(node.args) == 2 and not kw:
         a, b = ev.ev(node.args[0]), ev.ev(node.args[1])
         if is_unknown(a) or is_unknown(b) or isinstance(a, tuple) or isinstance(b, tuple):
@@ -306,8 +359,8 @@ def array_call(node, ev):
         return ev.ev(node.func.value)
     if d in ("np.reshape", "numpy.reshape") and node.args:
         return ev.ev(node.args[0])
-    if d in ("np.zeros", "numpy.zeros", "np.empty", "numpy.empty") and node.args:
-        sh = ev.ev(node.args[0])
+    if d in ("np.zeros", "numpy.zeros", "np.empty", "numpy.empty") and (node.args or "shape" in kw):
+        sh = ev.ev(node.args[0] if node.args else kw["shape"])
         if is_unknown(sh):
             return NotImplemented
         if isinstance(sh, tuple):
@@ -497,6 +550,11 @@ class Ev3(AutoEvaluator):
         self.global_names = set()
         self.chain = ""       # call sites through which this evaluator was reached: names of callee-local array objects are unique per call path and
                               # the same in every evaluation of the same source (rules compare values of two evaluations with each other)
+        self.alias_of = {}    # plain local -> name of the array object it was bound to by `x = X` / `for x in (X, Y)`: an in-place update of x is one of X
+        self.lambdas = {}     # symbol of a lambda value -> (Lambda node, evaluator whose scope it closes over | None for a module-level one); shared with callees
+        self.arrays = set()   # symbols the rule declares to be numeric arrays (never None; their elements are numbers)
+        self.modfuncs = frozenset()   # names of the module-level functions of the module under evaluation
+        self._cur_stmt = None
 
     def bname(self, name):
         """name of the array object the buffer `name` of this function denotes"""
@@ -520,6 +578,11 @@ class Ev3(AutoEvaluator):
         if isinstance(node, ast.Name) and node.id not in self.env and node.id in self.globals:
             return self.globals[node.id]          # a module-level name another function (or the rule) bound: a worker global
         if isinstance(node, ast.Subscript):
+            if isinstance(node.value, ast.Name) and isinstance(node.ctx, ast.Load) and node.value.id not in self.buffers:
+                cur = self.env.get(node.value.id)
+                u = unfn(cur) if (cur is not None and not is_unknown(cur) and not isinstance(cur, (tuple, DictValue))) else None
+                if u and u[0] == "empty":
+                    self._promote(node.value)         # a view of an array that has not been written yet: taken to write through it
             for h in tuple(self.sub_hooks) + (array_subscript,):
                 r = h(node, self)
                 if r is not NotImplemented:
@@ -540,8 +603,26 @@ class Ev3(AutoEvaluator):
             r = self.compare(node)
             if r is not None:
                 return TRUE if r else FALSE
+        if isinstance(node, ast.Lambda):
+            # a function value: a symbol of its own (position in the source; a local one also the call path), applied where it is called
+            module_level = bool(self._folding)
+            name = "<lambda:%d.%d%s>" % (getattr(node, "lineno", 0), getattr(node, "col_offset", 0), "" if module_level else self.chain)
+            self.lambdas[name] = (node, None if module_level else self)
+            return F.sym(name)
+        if isinstance(node, (ast.ListComp, ast.SetComp, ast.GeneratorExp, ast.DictComp)):
+            r = self._comprehension(node)
+            if r is not NotImplemented:
+                return r
+        if isinstance(node, ast.Attribute) and node.attr == "__name__":
+            n = sym_of(self.ev(node.value))
+            if n is not None and n in self.modfuncs and n not in self.buffers:
+                return S(n)                      # the name of a module-level function
         if isinstance(node, ast.Dict) and not node.keys:
             return DictValue({})
+        if isinstance(node, ast.Dict) and node.keys and not all(isinstance(k, ast.Constant) for k in node.keys) and all(k is not None for k in node.keys):
+            keys = [pykey(self.ev(k)) for k in node.keys]          # keys that are names of constants
+            if all(ok for ok, _k in keys):
+                return DictValue({k: self.ev(v) for (_ok, k), v in zip(keys, node.values)})
         if isinstance(node, (ast.Tuple, ast.List)):
             out = []
             for e in node.elts:
@@ -590,6 +671,8 @@ class Ev3(AutoEvaluator):
             for x, k in ((a, kb), (b, ka)):
                 if isinstance(x, (tuple, DictValue)) and k is not None and k[0] == "n":
                     return isinstance(op, (ast.NotEq, ast.IsNot))
+                if k == ("n", "None") and self.not_none(x):
+                    return isinstance(op, (ast.NotEq, ast.IsNot))
         if ka is None or kb is None:
             return None
         if isinstance(op, (ast.Eq, ast.Is)):
@@ -600,6 +683,172 @@ class Ev3(AutoEvaluator):
             x, y = ka[1], kb[1]
             return {ast.Lt: x < y, ast.LtE: x <= y, ast.Gt: x > y, ast.GtE: x >= y}.get(type(op))
         return None
+
+    _NUMERIC = ("abs", "zeros", "empty", "vstack", "hstack", "lfilt", "rows", "dim", "ceil", "int", "sel", "where", "interp")
+
+    def not_none(self, v, depth=0):
+        """the value is certainly not None: a number, a string, a display, a function, an array that is filled by stores, the result of arithmetic
+        (None takes part in none), an element of a numeric array.  False means: not known"""
+        if v is None or is_unknown(v):
+            return False
+        if isinstance(v, (tuple, DictValue)):
+            return True
+        try:
+            if v.is_const():
+                return True
+        except Exception:  # noqa
+            return False
+        if str_of(v) is not None:
+            return True
+        n = sym_of(v)
+        if n is not None:
+            if n in ("True", "False"):
+                return True
+            if n == "None":
+                return False
+            return n in self.lambdas or n in self.modfuncs or n in self.arrays or self.is_array_object(n)
+        u = unfn(v)
+        if u is None:
+            return True                 # a sum / product / quotient / exp / sqrt ...
+        name, args = u
+        if name in self._NUMERIC or name.startswith(("red:", "cmp:", "mask:")):
+            return True
+        if name == "idx" and len(args) == 2 and not isinstance(args[0], str) and not isinstance(args[1], str) and depth < 4:
+            b = args[0]
+            bn = sym_of(b)
+            if bn is not None and self.is_array_object(bn):
+                init = self.env.get("<init:%s>" % bn)
+                k = str_of(args[1])
+                if k is not None or isinstance(init, DictValue):
+                    if k is None:
+                        return False
+                    vals = [init.d[k]] if isinstance(init, DictValue) and k in init.d else []
+                    vals += [c[2] for c in self.cells if c[0] == bn and not is_unknown(c[1]) and str_of(c[1]) == k]
+                    return bool(vals) and self.not_none(vals[-1], depth + 1)
+                ui = unfn(init) if init is not None and not is_unknown(init) and not isinstance(init, (tuple, DictValue)) else None
+                return bool(ui and ui[0] in ("zeros", "empty"))
+            if bn is not None:
+                return bn in self.arrays
+            ub = unfn(b)
+            if ub is None:
+                return True             # an element of the result of arithmetic
+            return ub[0] in self._NUMERIC or (ub[0] == "idx" and self.not_none(b, depth + 1) and sym_of(ub[1][0]) in self.arrays)
+        return False
+
+    # ------------------------------------------------------------ iteration over displays, comprehensions
+    def _key_value(self, k):
+        if isinstance(k, str):
+            return S(k)
+        if k is None or isinstance(k, bool):
+            return {None: NONE, True: TRUE, False: FALSE}[k]
+        return F.const(k)
+
+    def _iter_items(self, it, ranges=True):
+        """the elements of an iterable that is enumerable from the source - a display, a local or a module-level constant bound to one, a literal
+        table, enumerate / zip / reversed of such, range of constants - as [(value, element node | None)]; None when it is not"""
+        if isinstance(it, (ast.Tuple, ast.List, ast.Set)):
+            if any(isinstance(e, ast.Starred) for e in it.elts):
+                v = self.ev(it)
+                return [(x, None) for x in v] if isinstance(v, PyTuple) else None
+            return [(self.ev(e), e) for e in it.elts]
+        if isinstance(it, ast.IfExp):
+            c = self.decide(it.test)
+            return None if c is None else self._iter_items(it.body if c else it.orelse, ranges)
+        if isinstance(it, ast.Call) and not any(isinstance(a, ast.Starred) for a in it.args):
+            d = dotted(it.func)
+            if d in ("enumerate", "zip", "range", "reversed", "tuple", "list", "sorted") and (d in self.env or d in self.buffers):
+                return None
+            if d == "enumerate" and 1 <= len(it.args) + len(it.keywords) <= 2 and it.args:
+                inner = self._iter_items(it.args[0], ranges)
+                if inner is None:
+                    return None
+                start = 0
+                if len(it.args) == 2 or it.keywords:
+                    sv = self.ev(it.args[1] if len(it.args) == 2 else it.keywords[0].value)
+                    ok, start = pykey(sv)
+                    if not ok or not isinstance(start, int) or isinstance(start, bool):
+                        return None
+                return [(PyTuple((F.const(start + k), v)), None) for k, (v, _e) in enumerate(inner)]
+            if d == "zip" and it.args and not it.keywords:
+                cols = [self._iter_items(a, ranges) for a in it.args]
+                if any(c is None for c in cols):
+                    return None
+                return [(PyTuple(tuple(c[k][0] for c in cols)), None) for k in range(min(len(c) for c in cols))]
+            if d == "reversed" and len(it.args) == 1 and not it.keywords:
+                inner = self._iter_items(it.args[0], ranges)
+                return None if inner is None else inner[::-1]
+            if d in ("tuple", "list") and len(it.args) == 1 and not it.keywords:
+                return self._iter_items(it.args[0], ranges)
+            if d == "range" and ranges and 1 <= len(it.args) <= 3 and not it.keywords:
+                ks = [pykey(self.ev(a)) for a in it.args]
+                if all(ok and isinstance(k, int) and not isinstance(k, bool) for ok, k in ks):
+                    r = range(*[k for _ok, k in ks])
+                    return [(F.const(k), None) for k in r] if len(r) <= 64 else None
+                return None
+            if isinstance(it.func, ast.Attribute) and it.func.attr in ("items", "keys", "values") and not it.args and not it.keywords:
+                base = self.ev(it.func.value)
+                if isinstance(base, DictValue):
+                    if it.func.attr == "keys":
+                        return [(self._key_value(k), None) for k in base.d]
+                    if it.func.attr == "values":
+                        return [(v, None) for v in base.d.values()]
+                    return [(PyTuple((self._key_value(k), v)), None) for k, v in base.d.items()]
+                return None
+        if isinstance(it, (ast.Name, ast.BinOp, ast.Subscript)) and not (isinstance(it, ast.Name) and it.id in self.buffers):
+            v = self.ev(it)
+            if isinstance(v, PyTuple):
+                return [(x, None) for x in v]
+            if isinstance(v, DictValue):
+                return [(self._key_value(k), None) for k in v.d]
+        return None
+
+    def _comprehension(self, node):
+        """a comprehension over iterables that are enumerable from the source: the display / literal table it builds; NotImplemented otherwise"""
+        gens = node.generators
+        names = {n.id for g in gens for n in ast.walk(g.target) if isinstance(n, ast.Name)}
+        if any(g.is_async for g in gens) or names & (self.buffers | set(self.pinned)):
+            return NotImplemented
+        saved = {n: self.env.get(n) for n in names}
+        saved_alias = dict(self.alias_of)
+        out = []
+
+        def rec(i):
+            if i == len(gens):
+                out.append((self.ev(node.key), self.ev(node.value)) if isinstance(node, ast.DictComp) else self.ev(node.elt))
+                return True
+            items = self._iter_items(gens[i].iter)
+            if items is None or len(items) > 64:
+                return False
+            for v, _e in items:
+                self._assign(gens[i].target, v, node)
+                keep = True
+                for c in gens[i].ifs:
+                    t = self.decide(c)
+                    if t is None:
+                        return False
+                    if not t:
+                        keep = False
+                        break
+                if keep and not rec(i + 1):
+                    return False
+            return True
+        try:
+            ok = rec(0)
+        finally:
+            for n, o in saved.items():
+                if o is None:
+                    self.env.pop(n, None)
+                else:
+                    self.env[n] = o
+            self.alias_of = saved_alias
+        if not ok:
+            return NotImplemented
+        if isinstance(node, ast.DictComp):
+            keys = [pykey(k) for k, _v in out]
+            if not all(okk for okk, _k in keys):
+                return Unknown("comprehension of a table with keys that are not constants")
+            return DictValue({k: v for (_ok, k), (_kv, v) in zip(keys, out)})
+        return PyTuple(out)
 
     def decide(self, test):
         r = self.cond(test, self)
@@ -644,8 +893,17 @@ class Ev3(AutoEvaluator):
     def stmt(self, st):
         if self.done:
             return
+        self._cur_stmt = st
         if isinstance(st, ast.For):
             self._for(st)
+            return
+        if isinstance(st, ast.Assign) and len(st.targets) == 1 and isinstance(st.targets[0], ast.Name) and isinstance(st.value, ast.Name) \
+                and st.targets[0].id not in self.buffers and st.targets[0].id not in self.pinned:
+            # x = X with X an array that is filled by stores (or a name bound to one): x denotes the same array object
+            b = self.bname(st.value.id) if st.value.id in self.buffers else self.alias_of.get(st.value.id)
+            super().stmt(st)
+            if b is not None:
+                self.alias_of[st.targets[0].id] = b
             return
         if isinstance(st, ast.While) and not st.orelse:
             ctr = counted_while(st)
@@ -685,6 +943,13 @@ class Ev3(AutoEvaluator):
             if isinstance(v, PyTuple):
                 self._assign(st.target, PyTuple(self.env[st.target.id] + v), st)      # result += (x,)
                 return
+        if isinstance(st, ast.AugAssign) and isinstance(st.target, ast.Name) and st.target.id not in self.buffers and st.target.id in self.alias_of:
+            # x op= v on a local that denotes an array object of this evaluation: an in-place update of that object
+            self.inplace[st.target.id] = self.inplace.get(st.target.id, 0) + 1
+            b = self.alias_of[st.target.id]
+            super().stmt(st)
+            self._store_full(ast.copy_location(ast.Name(id=st.target.id, ctx=ast.Load()), st), self.env.get(st.target.id), st, alias=b)
+            return
         if isinstance(st, ast.AugAssign) and isinstance(st.target, ast.Name):
             self.inplace[st.target.id] = self.inplace.get(st.target.id, 0) + 1
             # `h = d["k"]; h /= Q` on an array: an in-place update of the element of the container
@@ -704,9 +969,27 @@ class Ev3(AutoEvaluator):
         it = st.iter
         d = dotted(it.func) if isinstance(it, ast.Call) else None
         t = st.target
+        for a in ([it] if isinstance(it, ast.Name) else (it.args if isinstance(it, ast.Call) and d in ("zip", "enumerate") else [])):
+            self._promote(a)
 
         def bind(tg, v):
             self._assign(tg, v, st)
+        # a loop over a display (`for arr in (SRSmax, hist):`, `for k, x in enumerate((a, b)):`): executed element by element; a loop variable bound
+        # to an array object denotes that object
+        if not st.orelse and (self._display(it) or (isinstance(it, ast.Call) and d in ("enumerate", "zip", "reversed") and it.args
+                                                     and all(self._display(a) for a in it.args))):
+            items = self._iter_items(it, ranges=False)
+            if items is not None and len(items) <= 16 and not any(isinstance(n, (ast.Break, ast.Continue)) for x in st.body for n in ast.walk(x)):
+                for v, e in items:
+                    bind(t, v)
+                    if isinstance(t, ast.Name) and t.id not in self.buffers and isinstance(e, ast.Name):
+                        b = self.bname(e.id) if e.id in self.buffers else self.alias_of.get(e.id)
+                        if b is not None:
+                            self.alias_of[t.id] = b
+                    self.run(st.body)
+                    if self.done:
+                        break
+                return
         if d == "enumerate" and len(it.args) == 1 and isinstance(t, (ast.Tuple, ast.List)) and len(t.elts) == 2 and isinstance(t.elts[0], ast.Name):
             arr = self.ev(it.args[0])
             k = F.sym(t.elts[0].id)
@@ -759,6 +1042,8 @@ class Ev3(AutoEvaluator):
             for k, e in enumerate(target.elts):
                 self._assign(e, F.fn("idx", need(v), F.const(k)), st)
             return
+        if isinstance(target, ast.Name):
+            self.alias_of.pop(target.id, None)
         if isinstance(target, ast.Name) and target.id in self.global_names:
             self.globals[target.id] = v
         if isinstance(target, ast.Name) and target.id in self.buffers:
@@ -783,9 +1068,14 @@ class Ev3(AutoEvaluator):
                 ix = self._index_value(target.slice)
             except Unsupported as e:
                 ix = Unknown(str(e))
+            b = self.bname(target.value.id)
+            view = self._view_of(self.env.get("<init:%s>" % b)) if ("<cur:%s>" % b) not in self.env else None
+            if view is not None and view[0] != b:
+                # the name denotes a row / slab / entry of another array object (`for row in A:`, `h = d["k"]`): a store into it is a store into that object
+                b, ix = view[0], (view[1] if self._full_index(ix) else Unknown("a store through a view under a partial index"))
             self.seq += 1
             self.cell_seq.append(self.seq)
-            self.cells.append((self.bname(target.value.id), ix, v, st))
+            self.cells.append((b, ix, v, st))
             return
         if isinstance(target, ast.Subscript) and not (isinstance(target.value, ast.Name) and target.value.id in self.buffers) \
                 and isinstance(target.value, (ast.Subscript, ast.Attribute, ast.Name)):
@@ -800,6 +1090,282 @@ class Ev3(AutoEvaluator):
                 if isinstance(target.value, ast.Name):
                     return
         return super()._assign(target, v, st, aug)
+
+    # ------------------------------------------------------------ effects on arrays: views, out=, in-place methods
+    def _promote(self, node):
+        """`A = np.empty(shape)` held by a plain local that is now iterated over / sliced for writing (`for row in A:`, `row = A[k]`): from here on the
+        name denotes an array object of its own, so that stores through the rows are stores into it"""
+        if isinstance(node, ast.Name) and node.id not in self.buffers and node.id not in self.pinned and node.id in self.env:
+            cur = self.env[node.id]
+            u = unfn(cur) if (cur is not None and not is_unknown(cur) and not isinstance(cur, (tuple, DictValue))) else None
+            if u and u[0] in ("empty", "zeros"):
+                self.buffers.add(node.id)
+                self.env["<init:%s>" % node.id] = cur
+                del self.env[node.id]
+                for m, val in list(self.env.items()):
+                    if val is cur and not m.startswith("<") and m not in self.pinned and m not in self.buffers:
+                        self.alias_of[m] = node.id
+
+    def _view_of(self, v):
+        """idx(A, key) with A an array object of this evaluation -> (name of A, key) else None"""
+        u = unfn(v) if (v is not None and not is_unknown(v) and not isinstance(v, (tuple, DictValue))) else None
+        if u and u[0] == "idx" and len(u[1]) == 2 and not isinstance(u[1][0], str) and not isinstance(u[1][1], str) and self.is_array_object(sym_of(u[1][0])):
+            return sym_of(u[1][0]), u[1][1]
+        return None
+
+    @staticmethod
+    def _full_index(ix):
+        """`...`, `:` or a tuple of these: every element"""
+        if ix is None or is_unknown(ix):
+            return False
+        u = unfn(ix)
+        parts = u[1] if (u and u[0] == "tuple") else [ix]
+        for p_ in parts:
+            if isinstance(p_, str):
+                return False
+            if sym_of(p_) == "Ellipsis":
+                continue
+            up = unfn(p_)
+            if not (up and up[0] == "slice" and all(not isinstance(q, str) and sym_of(q) == "None" for q in up[1])):
+                return False
+        return True
+
+    def _store_full(self, tgt, v, st, alias=None):
+        """the effect `tgt[...] = v` of a call that writes its result into an existing array (`out=tgt`, `tgt.fill(v)`, `np.copyto(tgt, v)`) or of an
+        in-place operator on a local that denotes an array object.  What the target denotes decides where the store goes: an array object of this
+        evaluation, a row / entry of one (a view), or a local that holds a value (then every local bound to the very same value follows)."""
+        if isinstance(v, PyTuple):
+            v = tuple(v)
+        if isinstance(tgt, (ast.Subscript, ast.Attribute)):
+            t = copy.copy(tgt)
+            t.ctx = ast.Store()
+            self._assign(t, v, st)
+            return
+        if not isinstance(tgt, ast.Name) or tgt.id in self.pinned:
+            return
+        n = tgt.id
+        plainv = v is not None and not is_unknown(v) and not isinstance(v, (tuple, DictValue))
+
+        def whole(b):
+            if plainv and depends(v, b):
+                self.env["<cur:%s>" % b] = v           # the same array, transformed in place
+            else:
+                self.seq += 1
+                self.cell_seq.append(self.seq)
+                self.cells.append((b, F.sym("Ellipsis"), v, st))
+        if n in self.buffers:
+            b = self.bname(n)
+            view = self._view_of(self.env.get("<init:%s>" % b)) if ("<cur:%s>" % b) not in self.env else None
+            if view is not None and view[0] != b:
+                self.seq += 1
+                self.cell_seq.append(self.seq)
+                self.cells.append((view[0], view[1], v, st))
+            else:
+                whole(b)
+            return
+        if alias is None:
+            alias = self.alias_of.get(n)
+        if alias is not None:
+            whole(alias)
+            self.env[n] = v
+            self.alias_of[n] = alias
+            return
+        cur = self.env.get(n)
+        view = self._view_of(cur)
+        if view is not None:
+            self.seq += 1
+            self.cell_seq.append(self.seq)
+            self.cells.append((view[0], view[1], v, st))
+            return
+        self.env[n] = v
+        if cur is not None:
+            for m, val in list(self.env.items()):
+                if val is cur and m != n and not m.startswith("<") and m not in self.pinned:
+                    self.env[m] = v                   # another local bound to the very same array
+
+    _LIST_UNKNOWN = ("pop", "remove", "clear", "reverse", "sort")
+    _ARRAY_UNKNOWN = ("resize", "put", "itemset", "partition", "setfield", "byteswap")
+    _NP_WRITERS = ("put", "place", "putmask", "fill_diagonal", "put_along_axis")
+
+    def _effects(self, node):
+        """calls that change an existing object instead of (or besides) returning a value; NotImplemented for every other call"""
+        f = node.func
+        d = dotted(f) or ""
+        st = self._cur_stmt if self._cur_stmt is not None else node
+        kws = {k.arg: k.value for k in node.keywords if k.arg is not None}
+        if "out" in kws and not (isinstance(kws["out"], ast.Constant) and kws["out"].value is None):
+            tgt = kws["out"]
+            bare = copy.copy(node)
+            bare.keywords = [k for k in node.keywords if k.arg != "out"]
+            v = Unknown("a ufunc call with where=") if "where" in kws else self.ev(bare)
+            if isinstance(tgt, ast.Tuple):
+                for e in tgt.elts:
+                    self._store_full(e, Unknown("one of several out= arrays"), st)
+                return v
+            self._store_full(tgt, v, st)
+            return self.ev(tgt) if isinstance(tgt, (ast.Name, ast.Subscript, ast.Attribute)) else v
+        if _is_np(d) and d.count(".") == 1 and node.args:
+            last = d.split(".")[1]
+            if last == "copyto" and len(node.args) >= 2 and not (set(kws) - {"casting"}):
+                self._store_full(node.args[0], self.ev(node.args[1]), st)
+                return NONE
+            if last in self._NP_WRITERS or last == "copyto":
+                self._store_full(node.args[0], Unknown(f"np.{last} writes into the array"), st)
+                return NONE
+        if isinstance(f, ast.Attribute) and isinstance(f.value, (ast.Name, ast.Subscript)) and not _is_np(d):
+            attr = f.attr
+            if attr == "fill" and len(node.args) == 1 and not node.keywords:
+                self._store_full(f.value, self.ev(node.args[0]), st)
+                return NONE
+            if attr in self._ARRAY_UNKNOWN and isinstance(f.value, ast.Name) and (f.value.id in self.buffers or f.value.id in self.env):
+                self._store_full(f.value, Unknown(f"in-place .{attr}()"), st)
+                return NONE
+            if isinstance(f.value, ast.Name) and f.value.id not in self.pinned:
+                n = f.value.id
+                if n in self.buffers:
+                    if attr == "update" and isinstance(self.env.get("<init:%s>" % self.bname(n)), DictValue):
+                        items = self._update_items(node)
+                        for k, val in (items if items is not None else [(Unknown("dict.update with arguments that are not literal"), Unknown("dict.update"))]):
+                            self.seq += 1
+                            self.cell_seq.append(self.seq)
+                            self.cells.append((self.bname(n), k, val, st))
+                        return NONE
+                    if attr == "sort" and not node.args:
+                        self._store_full(f.value, F.fn("call:np.sort", need(self.ev(f.value))), st)
+                        return NONE
+                    return NotImplemented
+                cur = self.env.get(n)
+                if isinstance(cur, PyTuple):
+                    new, ret = None, NONE
+                    if attr == "append" and len(node.args) == 1 and not node.keywords:
+                        new = PyTuple(cur + (self.ev(node.args[0]),))
+                    elif attr == "extend" and len(node.args) == 1 and not node.keywords:
+                        y = self.ev(node.args[0])
+                        new = PyTuple(cur + tuple(y)) if isinstance(y, tuple) else Unknown("list.extend with a value that is not a display")
+                    elif attr == "insert" and len(node.args) == 2 and not node.keywords:
+                        ok, k = pykey(self.ev(node.args[0]))
+                        if ok and isinstance(k, int) and not isinstance(k, bool):
+                            lst = list(cur)
+                            lst.insert(k, self.ev(node.args[1]))
+                            new = PyTuple(lst)
+                        else:
+                            new = Unknown("list.insert at a position that is not constant")
+                    elif attr == "pop" and not node.args and not node.keywords and len(cur):
+                        new, ret = PyTuple(cur[:-1]), cur[-1]
+                    elif attr in self._LIST_UNKNOWN:
+                        new = Unknown(f"list.{attr}()")
+                    if new is not None:
+                        self.env[n] = new
+                        for m, val in list(self.env.items()):
+                            if val is cur and m != n and not m.startswith("<") and m not in self.pinned:
+                                self.env[m] = new
+                        return ret
+                    return NotImplemented
+                if isinstance(cur, DictValue):
+                    if attr == "update":
+                        items = self._update_items(node)
+                        if items is None or any(not pykey(k)[0] for k, _v in items):
+                            self.env[n] = Unknown("dict.update with arguments that are not literal")
+                        else:
+                            dnew = dict(cur.d)
+                            dnew.update({pykey(k)[1]: val for k, val in items})
+                            self.env[n] = DictValue(dnew)
+                        return NONE
+                    if attr == "setdefault" and 1 <= len(node.args) <= 2 and not node.keywords:
+                        ok, k = pykey(self.ev(node.args[0]))
+                        if ok and k in cur.d:
+                            return cur.d[k]
+                        if ok:
+                            dnew = dict(cur.d)
+                            dnew[k] = self.ev(node.args[1]) if len(node.args) == 2 else NONE
+                            self.env[n] = DictValue(dnew)
+                            return dnew[k]
+                        self.env[n] = Unknown("dict.setdefault with a key that is not constant")
+                        return Unknown("dict.setdefault")
+                    if attr in ("pop", "popitem", "clear"):
+                        self.env[n] = Unknown(f"dict.{attr}()")
+                        return Unknown(f"dict.{attr}()")
+                    return NotImplemented
+                if attr == "sort" and not node.args and cur is not None and not is_unknown(cur) and not isinstance(cur, (tuple, DictValue)) and sym_of(cur) is None:
+                    self._store_full(f.value, F.fn("call:np.sort", need(cur)), st)
+                    return NONE
+        return NotImplemented
+
+    def _update_items(self, node):
+        """[(key value, value)] of d.update({...}, k=v) / d.update(k=v); None when an argument is not a literal table"""
+        out = []
+        if len(node.args) > 1 or any(k.arg is None for k in node.keywords):
+            return None
+        if node.args:
+            a = self.ev(node.args[0])
+            if not isinstance(a, DictValue):
+                return None
+            out += [(self._key_value(k), v) for k, v in a.d.items()]
+        out += [(S(k.arg), self.ev(k.value)) for k in node.keywords]
+        return out
+
+    def _apply_lambda(self, name, node):
+        """the value of calling the lambda `name` with the arguments of the call `node`"""
+        lam, owner = self.lambdas[name]
+        a = lam.args
+        params = [x.arg for x in a.posonlyargs + a.args]
+        if a.vararg or a.kwarg or a.kwonlyargs or any(isinstance(x, ast.Starred) for x in node.args) or any(k.arg is None for k in node.keywords) \
+                or len(node.args) > len(params):
+            return NotImplemented
+        env = {}
+        for p_, x in zip(params, node.args):
+            env[p_] = self.ev(x)
+        for k in node.keywords:
+            if k.arg not in params or k.arg in env:
+                return NotImplemented
+            env[k.arg] = self.ev(k.value)
+        dflt = dict(zip(params[::-1], (a.defaults or [])[::-1]))
+        for p_ in params:
+            if p_ not in env:
+                if p_ not in dflt:
+                    return NotImplemented
+                env[p_] = (owner or self).ev(dflt[p_])
+        if owner is None:
+            # a module-level lambda: its free names are module-level names
+            sub = type(self)(None, env=env, cond=self.cond, src=self.src, funcs=None, subscript=self.subscript, call=self.call_hook, binop=self.binop_hook)
+            self._share(sub, node)
+            v = sub.ev(lam.body)
+            self._merge(sub)
+            return v
+        if set(params) & (owner.buffers | set(owner.pinned)):
+            return NotImplemented
+        missing = object()
+        saved = {p_: owner.env.get(p_, missing) for p_ in params}
+        owner.env.update(env)
+        try:
+            return owner.ev(lam.body)
+        finally:
+            for p_, o in saved.items():
+                if o is missing:
+                    owner.env.pop(p_, None)
+                else:
+                    owner.env[p_] = o
+
+    def _share(self, sub, node):
+        """what an evaluator of a callee has in common with its caller"""
+        sub.inline = self.inline
+        sub.inline_depth = self.inline_depth + 1
+        sub.module_consts = self.module_consts
+        sub.hooks, sub.sub_hooks, sub.raise_only, sub.explore_hook = self.hooks, self.sub_hooks, self.raise_only, self.explore_hook
+        sub.loop_unroll, sub.loop_once, sub.forward_stores, sub.erase_T = self.loop_unroll, self.loop_once, self.forward_stores, self.erase_T
+        sub.seq = self.seq
+        sub.globals = self.globals
+        sub.lambdas, sub.arrays, sub.modfuncs = self.lambdas, self.arrays, self.modfuncs
+        sub.chain = "%s/%s.%s" % (self.chain, getattr(node, "lineno", 0), getattr(node, "col_offset", 0))
+        sub.foreign = set(self.foreign) | {self.bname(b) for b in self.buffers}
+
+    def _merge(self, sub):
+        self.calls.extend(sub.calls)
+        self.call_seq.extend(sub.call_seq)
+        self.cells.extend(sub.cells)
+        self.cell_seq.extend(sub.cell_seq)
+        self.deep.extend(sub.deep)
+        self.seq = sub.seq
 
     # ------------------------------------------------------------ calls
     def _call(self, node):
@@ -823,6 +1389,17 @@ class Ev3(AutoEvaluator):
         if isinstance(node.func, ast.Name) and node.func.id == "dict" and not node.args and node.keywords and all(k.arg is not None for k in node.keywords) \
                 and "dict" not in self.env:
             return DictValue({k.arg: self.ev(k.value) for k in node.keywords})
+        if isinstance(node.func, ast.Name) and node.func.id == "dict" and len(node.args) == 1 and not node.keywords and "dict" not in self.env:
+            v = self.ev(node.args[0])               # dict(pairs) on a display of (key, value) displays; dict(table)
+            if isinstance(v, DictValue):
+                return DictValue(dict(v.d))
+            if isinstance(v, PyTuple) and all(isinstance(x, tuple) and len(x) == 2 for x in v):
+                keys = [pykey(x[0]) for x in v]
+                if all(ok for ok, _k in keys):
+                    return DictValue({k: x[1] for (_ok, k), x in zip(keys, v)})
+        r = self._effects(node)
+        if r is not NotImplemented:
+            return r
         for h in self.hooks:
             r = h(node, self)
             if r is not NotImplemented:
@@ -835,11 +1412,21 @@ class Ev3(AutoEvaluator):
         if r is not NotImplemented:
             self._record_call(node)
             return r
-        # a call through a local that holds a value: apply(value, arguments)
+        # a call through a local that holds a value, or through an expression that selects one (`TABLE[key](x)`, `(f if c else g)(x)`): apply(value, arguments)
+        fv = None
         if isinstance(node.func, ast.Name) and node.func.id in self.env and node.func.id not in self.buffers:
             fv = self.env[node.func.id]
+        elif isinstance(node.func, (ast.Subscript, ast.IfExp, ast.Lambda, ast.Call)):
+            fv = self.ev(node.func)
+            if is_unknown(fv):
+                return fv
+        if fv is not None:
             if not is_unknown(fv) and not isinstance(fv, (tuple, DictValue)):
                 fname = sym_of(fv)
+                if fname is not None and fname in self.lambdas:
+                    r = self._apply_lambda(fname, node)
+                    if r is not NotImplemented:
+                        return r
                 if fname is not None and self.inline and fname in self.inline:
                     r = self._inline_call(node, fn=self.inline[fname], name=fname)     # a local that holds a module-level function
                     if r is not NotImplemented:
@@ -918,6 +1505,7 @@ class Ev3(AutoEvaluator):
         sub.loop_unroll, sub.loop_once, sub.forward_stores, sub.erase_T = self.loop_unroll, self.loop_once, self.forward_stores, self.erase_T
         sub.seq = self.seq
         sub.globals = self.globals
+        sub.lambdas, sub.arrays, sub.modfuncs = self.lambdas, self.arrays, self.modfuncs
         sub.chain = "%s/%s.%s" % (self.chain, getattr(node, "lineno", 0), getattr(node, "col_offset", 0))
         sub.foreign = set(self.foreign) | {self.bname(b) for b in self.buffers}
         # the arrays the callee fills by subscript stores: a parameter is the caller's array object when the argument is one symbol (the stores are
@@ -977,7 +1565,10 @@ class Ev3(AutoEvaluator):
 
 
 _CONST_NODES = (ast.Constant, ast.Tuple, ast.List, ast.Dict, ast.Set, ast.Name, ast.UnaryOp, ast.unaryop, ast.BinOp, ast.operator, ast.Attribute, ast.Subscript,
-                ast.Slice, ast.Call, ast.keyword, ast.JoinedStr, ast.FormattedValue, ast.expr_context)
+                ast.Slice, ast.Call, ast.keyword, ast.JoinedStr, ast.FormattedValue, ast.expr_context, ast.Starred,
+                # tables built by an expression: comprehensions over displays, conditional expressions, lambdas as entries
+                ast.ListComp, ast.SetComp, ast.DictComp, ast.GeneratorExp, ast.comprehension, ast.IfExp, ast.Compare, ast.cmpop, ast.BoolOp, ast.boolop,
+                ast.Lambda, ast.arguments, ast.arg)
 
 
 def module_consts3(ctx, rel):
@@ -1044,7 +1635,7 @@ class Sem3:
     """one evaluation of `fn` on symbols (see sem.Sem); parameters are symbols of their own names unless `env` says otherwise"""
 
     def __init__(self, ctx, fn, rel, cond=None, env=None, hooks=(), sub_hooks=(), explore_hook=None, inline=True, run=True, stmts=None, seed_params=True,
-                 exclude=(), module_state=None):
+                 exclude=(), module_state=None, arrays=()):
         self.ctx = ctx
         self.fn = fn
         e = {}
@@ -1061,6 +1652,8 @@ class Sem3:
         table, consts, ro = cache[rel]
         self.ev.inline = {k: v for k, v in table.items() if v is not fn and k not in exclude} if inline else None
         self.ev.module_consts = consts
+        self.ev.modfuncs = frozenset(table)
+        self.ev.arrays = set(arrays)
         self.ev.hooks = tuple(hooks)
         self.ev.sub_hooks = tuple(sub_hooks)
         self.ev.explore_hook = explore_hook
